@@ -15,7 +15,10 @@ MANIFEST = dict(
          'when the minimum is respected; every change value fits max_val_size (the packer sizes each part with max(minimum '
          'ADA, ADA of the change) and no output receives more); the model refuses with '
          'InsufficientUTxOBalance exactly when the ADA left cannot fund the minimum of every change output; serialization of an '
-         'output / UTxO / body / transaction refuses any negative ADA or quantity; the min-ADA utility is the ledger formula. '
+         'output / UTxO / body / transaction refuses any negative ADA or quantity; the min-ADA utility is the ledger formula, '
+         'its answer for an output without ADA is accepted by the ledger once put into that output (answers below 2^32), and '
+         'of the protocol parameters only coins_per_utxo_byte (and max_val_size for the change) enters (pparams/cfg_of; the '
+         'legacy min_utxo / coins_per_utxo_word and the other fields are varied on every kind of case). '
          'Serialized sizes are computed inside the model by the CBOR encoder of Cbor.v/Value.v. Model tied to the code by exact '
          'correspondence on the private methods (_pack_tokens_for_change, _adding_asset_make_output_overflow, _calc_change, '
          '_add_change_and_fee, min_lovelace_post_alonzo, to_cbor validation) and by an end-to-end oracle on build().',
@@ -39,6 +42,7 @@ ASSUMPTIONS = [
     '(proved for 28-byte policies, names <= 32 bytes, quantities, minimum ADA and change < 2^64, max_val_size >= 85; a '
     'refuted lemma shows the premise is needed for max_val_size = 60, outside the range) and the change holds < 2^64 lovelace',
     'C08_outputs, minimum ADA of own size: coin < 2^32 or minimum <= 2^32 (the code computes the minimum with a 5-byte coin)',
+    'C08_minada_zero_accepted: the answer is below 2^32 lovelace (needed: C08_minada_zero_needs_premise, per-byte price 2*10^7)',
     'typeguard / constructor validation outside the model (well-typed operands only)',
 ]
 # regions reported to the coordinator and not yet answered: kept out of oracle_fail, counted in known_region_hits.
@@ -51,7 +55,12 @@ ADDR_B = '00' + '11' * 28 + '22' * 28        # base address, testnet: 57 bytes
 ADDR_E = '60' + '33' * 28                    # enterprise address, testnet: 29 bytes
 ADDR_E2 = '60' + '44' * 28
 ADDRS = [ADDR_B, ADDR_E]
-CPBS = [4310, 4310, 4310, 1000, 34482, 410, 100000]
+CPBS = [4310, 4310, 4310, 1000, 34482, 410, 100000, 8620]
+# legacy minimum-UTxO parameter as chain contexts report it: 1 ADA (old snapshots, test contexts), the per-byte price
+# 4310 / 34482 (Blockfrost since Babbage), absent (Ogmios v6), and CBOR width boundaries of an unsigned integer
+MIN_UTXOS = [None, 0, 1, 23, 24, 255, 256, 4310, 4310, 34482, 34482, 65535, 65536, 999978, 1000000, 1000000,
+             2 ** 32 - 1, 2 ** 32, 5 * 10 ** 12]
+PP_DEFAULT = {'min_utxo': 1000000}             # + coins_per_utxo_word = 8 * coins_per_utxo_byte (see change_driver.Ctx)
 QTYS = [1, 1, 1, 2, 23, 24, 255, 256, 65535, 65536, 2 ** 32 - 1, 2 ** 32, 2 ** 63 - 1, 2 ** 64 - 1]
 ERRMAP = {'InsufficientUTxOBalanceException': 'EInsufficient', 'InvalidTransactionException': 'EInvalidTx',
           'InvalidDataException': 'EInvalidData'}
@@ -124,12 +133,39 @@ def n_assets(ma):
     return sum(len(names) for _, names in ma)
 
 
+def rand_pp(rng, cpb):
+    """protocol parameters besides coins_per_utxo_byte / max_val_size, which C08's rule does not mention and the code
+    must therefore not let into a minimum ADA: legacy min_utxo / coins_per_utxo_word in the shapes real backends
+    report, fee coefficients (the fee is data for the slices), and a few unrelated fields. {} = the defaults."""
+    pp = {}
+    if rng.random() < 0.35:
+        return pp
+    if rng.random() < 0.8:
+        pp['min_utxo'] = rng.choice(MIN_UTXOS + [cpb, cpb, cpb * 8, rng.randint(0, 70000), rng.randint(0, 3 * 10 ** 6)])
+    if rng.random() < 0.5:
+        pp['coins_per_utxo_word'] = rng.choice([None, 0, 34482, cpb, cpb * 8 + 1, rng.randint(0, 10 ** 6)])
+    if rng.random() < 0.25:
+        pp['min_fee_constant'], pp['min_fee_coefficient'] = rng.choice([(0, 0), (1000000, 100), (155381, 43), (200000, 0), (0, 44)])
+    if rng.random() < 0.15:
+        pp.update(rng.choice([{'key_deposit': 0}, {'min_pool_cost': 0}, {'protocol_major_version': 10, 'protocol_minor_version': 1},
+                              {'collateral_percent': 0, 'max_collateral_inputs': 0}, {'max_tx_size': 65536},
+                              {'pool_deposit': 0, 'key_deposit': 400000}]))
+    return pp
+
+
+def with_pp(rng, c):
+    pp = rand_pp(rng, c['cpb'])
+    if pp:
+        c['pp'] = pp
+    return c
+
+
 def gen_pack(rng):
     ma = rand_bundle(rng)
     if not ma and rng.random() < 0.8:
         ma = rand_bundle(rng, total=rng.randint(1, 60))
-    return dict(kind='pack', cpb=rng.choice(CPBS), mvs=rand_mvs(rng, ma), addr=rng.choice(ADDRS),
-                change=[rng.choice([0, 1, 1000000, 2 ** 32 - 1, 2 ** 32, 5 * 10 ** 12, rng.randint(0, 10 ** 8)]), ma])
+    return with_pp(rng, dict(kind='pack', cpb=rng.choice(CPBS), mvs=rand_mvs(rng, ma), addr=rng.choice(ADDRS),
+                             change=[rng.choice([0, 1, 1000000, 2 ** 32 - 1, 2 ** 32, 5 * 10 ** 12, rng.randint(0, 10 ** 8)]), ma]))
 
 
 def gen_ovf(rng):
@@ -143,9 +179,10 @@ def gen_ovf(rng):
         name = rng.choice(cur)[0]
     total = [[pid, cur + [[name, 1]]]] + out_ma
     mvs = max(100, min(5000, ma_size(total) + 6 + rng.choice([-40, -8, -3, -2, -1, 0, 0, 1, 2, 3, 8, 40])))
-    return dict(kind='ovf', cpb=rng.choice(CPBS), mvs=mvs, addr=rng.choice(ADDRS),
-                out=[rng.choice([0, 0, 1, 1000000, 2 ** 32, rng.randint(0, 10 ** 7)]), out_ma], cur=cur, pid=pid, name=name,
-                q=rng.choice(QTYS), max_coin=rng.choice([0, 0, 1, 65535, 65536, 1000000, 2 ** 32 - 1, 2 ** 32, 5 * 10 ** 12]))
+    return with_pp(rng, dict(
+        kind='ovf', cpb=rng.choice(CPBS), mvs=mvs, addr=rng.choice(ADDRS),
+        out=[rng.choice([0, 0, 1, 1000000, 2 ** 32, rng.randint(0, 10 ** 7)]), out_ma], cur=cur, pid=pid, name=name,
+        q=rng.choice(QTYS), max_coin=rng.choice([0, 0, 1, 65535, 65536, 1000000, 2 ** 32 - 1, 2 ** 32, 5 * 10 ** 12])))
 
 
 def spread(rng, coin, ma, k):
@@ -198,6 +235,7 @@ def gen_calc_base(rng, kind='calc'):
     nin = rng.choice([1, 1, 2, 3])
     c = dict(kind=kind, cpb=rng.choice(CPBS), mvs=rand_mvs(rng, change_ma), addr=addr, fee=rng.choice([0, 170000, 200000, 1234567]),
              outputs=outs, respect=rng.random() < 0.7, out_coin=out_coin, total_ma=total_ma, nin=nin)
+    with_pp(rng, c)
     if kind == 'calc':
         r = rng.random()
         if r < 0.12 and total_ma:             # mint part of the provided tokens instead of holding them / burn
@@ -262,9 +300,10 @@ def case_left_over_to_in_coin(c, left):
 
 def gen_minada(rng):
     c = dict(kind='minada', cpb=rng.choice(CPBS), addr=rng.choice(ADDRS + [ADDR_E2]),
-             amount=[rng.choice([0, 0, 0, 1, 23, 24, 255, 256, 65535, 65536, 1000000, 2 ** 32 - 1, 2 ** 32, 45 * 10 ** 15]),
+             amount=[rng.choice([0, 0, 0, 0, 0, 1, 23, 24, 255, 256, 65535, 65536, 1000000, 2 ** 32 - 1, 2 ** 32, 45 * 10 ** 15]),
                      rand_bundle(rng, total=rng.choice([0, 0, 1, 2, 5, 20, 60]))],
-             post_alonzo=rng.random() < 0.5)
+             post_alonzo=rng.random() < 0.5, entry=rng.choice(['post', 'post', 'dispatch']))
+    with_pp(rng, c)
     r = rng.random()
     if r < 0.2:
         c['datum'] = ['hash', bytes(rng.getrandbits(8) for _ in range(32)).hex()]
@@ -312,9 +351,10 @@ def gen_build_base(rng):
         outs.insert(rng.randrange(len(outs) + 1), [addr, [rng.choice([1000000, 1000000, 2000000]), []]])
     out_coin = sum(v[0] for _, v in outs)
     total_ma = [[p, [list(nq) for nq in names]] for p, names in change_ma + req_ma]
-    return dict(kind='build', cpb=rng.choice([4310, 4310, 4310, 1000, 34482]), mvs=rand_mvs(rng, change_ma), addr=addr, merge=merge,
-                outputs=outs, out_coin=out_coin, total_ma=total_ma, nin=rng.choice([1, 2, 3]), fee=0,
-                mode=rng.choice(['explicit', 'explicit', 'address']))
+    return with_pp(rng, dict(
+        kind='build', cpb=rng.choice([4310, 4310, 4310, 1000, 34482, 8620]), mvs=rand_mvs(rng, change_ma), addr=addr, merge=merge,
+        outputs=outs, out_coin=out_coin, total_ma=total_ma, nin=rng.choice([1, 2, 3]), fee=0,
+        mode=rng.choice(['explicit', 'explicit', 'address'])))
 
 
 def finish_pool(rng, c, in_coin):
@@ -345,7 +385,19 @@ def corpus_cases():
     ma2 = [['01' * 28, [[('00%02x' % i) + '78' * 30, 1] for i in range(2)]]]
     sm = dict(kind='calc', cpb=1, mvs=106, addr=ADDR_B, fee=200000, respect=True,
               inputs=[['01' * 32, 0, ADDR_B, [1400000, ma2]]], outputs=[], corpus='small-cpb-calc')
-    return [a, b, p4, p4c, sm]
+    # protocol parameter variants: the legacy min_utxo reported as the per-byte price (Blockfrost) must not enter the
+    # minimum ADA of a zero-ADA output (utility) / of the non-last outputs of a split token change (calc, build)
+    ma24 = [[('%02x' % (0xa0 + p)) * 28, [[(b'T%03d' % i).hex() + '74' * 4, 1 + i] for i in range(p, 24, 2)]] for p in range(2)]
+    lg = {'min_utxo': 4310, 'coins_per_utxo_word': 34482}
+    l1 = dict(kind='minada', cpb=4310, addr=ADDR_E, amount=[0, ma3], post_alonzo=True, entry='post', pp={'min_utxo': 4310},
+              corpus='legacy-min-utxo-utility')
+    l2 = dict(kind='minada', cpb=8620, addr=ADDR_B, amount=[0, []], post_alonzo=False, entry='dispatch',
+              datum=['hash', '11' * 32], pp={'min_utxo': 34482, 'coins_per_utxo_word': None}, corpus='legacy-min-utxo-dispatch')
+    l3 = dict(kind='calc', cpb=4310, mvs=150, addr=ADDR_E, fee=200000, respect=True, pp=lg,
+              inputs=[['07' * 32, 0, ADDR_E, [40000000, ma24]]], outputs=[[ADDR_E2, [2000000, []]]], corpus='legacy-min-utxo-calc')
+    l4 = dict(kind='build', cpb=4310, mvs=150, addr=ADDR_E, merge=False, outputs=[[ADDR_E2, [2000000, []]]], pp=lg,
+              pool=[['07' * 32, 0, ADDR_E, [40000000, ma24]]], explicit=[0], input_addresses=[], corpus='legacy-min-utxo-build')
+    return [a, b, p4, p4c, sm, l1, l2, l3, l4]
 
 
 # ------------------------------------------------------------------ Coq rendering
@@ -362,7 +414,12 @@ def r_val(v):
 
 
 def r_cfg(c):
-    return f'(mkCfg {cz(c["cpb"])} {cz(c.get("mvs", 5000))})'
+    """the protocol parameters of the case as a pparams record; the model reads them through cfg_of"""
+    pp = c.get('pp') or {}
+    mu = pp.get('min_utxo', PP_DEFAULT['min_utxo'])
+    cpw = pp.get('coins_per_utxo_word', c['cpb'] * 8)
+    oz = lambda x: 'None' if x is None else f'(Some {cz(x)})'
+    return f'(cfg_of (mkPP {cz(c["cpb"])} {cz(c.get("mvs", 5000))} {oz(mu)} {oz(cpw)}))'
 
 
 def r_res(r, f):
@@ -423,7 +480,8 @@ def render(part):
 
 
 CLASSES = {1: 'negative-or-nonpositive-quantity', 2: 'change-below-min-ada', 3: 'value-exceeds-max-val-size', 4: 'unbalanced',
-           5: 'last-change-plus-4-bytes', 6: 'negative-not-refused', 7: 'min-ada-formula', 8: 'malformed-output'}
+           5: 'last-change-plus-4-bytes', 6: 'negative-not-refused', 7: 'min-ada-formula', 8: 'malformed-output',
+           9: 'min-ada-answer-rejected-by-ledger'}
 
 
 def cost(c):
@@ -587,12 +645,23 @@ def correspond(ctx, scale=None):
             notes[c['corpus']] = results[i].get('err', 'RETURNED')
             if 'ok' in results[i] and i not in fail:
                 pass                                   # returned AND valid: fine as well (oracle decided)
-        if c.get('corpus', '').startswith(('plus4', 'small-cpb')):
+        if c.get('corpus', '').startswith(('plus4', 'small-cpb', 'legacy-min-utxo')):
             notes[c['corpus']] = ('oracle-fails:' + cls.get(i, '?')) if (i in fail or i in plus4) else \
                 ('fits-now' if 'ok' in results[i] else results[i].get('err'))
-    hist, errk, nchg = {}, {}, {}
+    hist, errk, nchg, pph = {}, {}, {}, {}
     for c, r in zip(cases, results):
         hist[c['kind']] = hist.get(c['kind'], 0) + 1
+        pp = c.get('pp') or {}
+        mu = pp.get('min_utxo', 'default')
+        for key in (['defaults'] if not pp else
+                    ['min_utxo=' + ('None' if mu is None else mu if mu == 'default' else '<65536' if mu < 65536 else
+                                    '<2^32' if mu < 2 ** 32 else '>=2^32')]
+                    + [k for k in pp if k != 'min_utxo']):
+            pph[key] = pph.get(key, 0) + 1
+        if c['kind'] == 'minada' and c['amount'][0] == 0:
+            pph['minada zero-ADA'] = pph.get('minada zero-ADA', 0) + 1
+            if pp.get('min_utxo', 1000000) is not None and pp.get('min_utxo', 1000000) < 65536:
+                pph['minada zero-ADA, min_utxo<65536'] = pph.get('minada zero-ADA, min_utxo<65536', 0) + 1
         if 'err' in r:
             errk[c['kind'] + ':' + r['err']] = errk.get(c['kind'] + ':' + r['err'], 0) + 1
         if c['kind'] in ('calc', 'pack') and 'ok' in r:
@@ -616,14 +685,20 @@ def correspond(ctx, scale=None):
              'policies, names 0..32 bytes, left-over ADA within +-2000 lovelace of a min-ADA threshold of the change outputs, '
              'max_val_size 100..5000 incl. the exact size of the bundle +-5, coins_per_utxo_byte in {410,1000,4310,34482,100000} '
              '(plus a few in {1,50,300}), '
-             'merge on/off with/without an output at the change address) and full build() scenarios; non-trivial = token '
+             'merge on/off with/without an output at the change address; on ~65% of the cases of every kind the chain '
+             'context reports other protocol parameters than the test defaults: legacy min_utxo in {None, 0, CBOR width '
+             'boundaries, 4310, 34482, the per-byte price, 1 ADA, >= 2^32, random}, coins_per_utxo_word in {None, 0, 34482, '
+             '...}, fee coefficients, unrelated fields; the min-ADA utility through min_lovelace_post_alonzo and the '
+             'min_lovelace dispatcher, ~1/3 of its outputs without ADA) and full build() scenarios; non-trivial = token '
              'bundle in the change or an exception (calc/add/build), >= 2 assets (pack), a planted negative (ser), all '
              'ovf/minada cases; distinct by hash',
         samples=[cases[4], cases[len(cases) // 2]],
-        kind_histogram=hist, exception_histogram=errk, change_output_count_histogram=nchg,
+        kind_histogram=hist, exception_histogram=errk, change_output_count_histogram=nchg, protocol_param_histogram=pph,
         known_region_hits=known_hits, corpus=notes,
         compared='model vs implementation: returned bundles in order (raw dict order), coins, exception kinds, overflow '
-                 'booleans, min-ADA numbers and map-form bytes; oracle on the implementation outputs: amounts valid, change '
+                 'booleans, min-ADA numbers and map-form bytes (the model reads coins_per_utxo_byte and max_val_size only, '
+                 'whatever the other protocol parameters of the case); oracle on the implementation outputs: min-ADA answer '
+                 'for a zero-ADA output accepted by the ledger rule once put into the output; amounts valid, change '
                  '>= min ADA of own size, value size <= max_val_size, change = provided - requested, negative refused, '
                  'arguments unchanged (snapshots); end to end: every output of the body decoded in Coq from its CBOR',
         mismatches=[{'input': cases[i], 'impl': results[i], 'region': 'model-vs-impl:' + cases[i]['kind']} for i in sorted(mism)[:20]],
